@@ -6,9 +6,12 @@ CONSTANTS
   W2 = 3
   Chars = {65, 66}
   Walk = FALSE
+  NWalks = 300
+  Seed = 1
   D = 2
 INVARIANT Inv
 INVARIANT PlacementLaw
+INVARIANT ShortcutSound
 PROPERTY OutsideWindowUnchanged
 PROPERTY LocateReported
 PROPERTY LocateOutsideRefused
